@@ -6,6 +6,8 @@ pub mod keywords;
 pub mod utils;
 pub(crate) use keywords::*;
 pub(crate) use utils::*;
+#[cfg(sv_parser_verif)]
+pub mod verif;
 
 mod tests;
 
@@ -120,4 +122,6 @@ fn init() {
     nom_packrat::init!();
     clear_directive();
     clear_version();
+    #[cfg(sv_parser_verif)]
+    verif::emit("init", &[], &[]);
 }
